@@ -373,8 +373,8 @@ Definition diamond : list (list Z) :=
 Example nonvacuous_input : nonneg_len 5 (of_rows 0%Z diamond) /\ binary 5 (of_rows 0%Z [[0;1];[1;0]]%Z).
 Proof.
   split.
-  - intros i j Hi Hj. do 5 (destruct i as [|i]; [do 5 (destruct j as [|j]; [vm_compute; discriminate|]); lia|]). lia.
-  - intros i j Hi Hj. do 2 (destruct i as [|i]; [do 2 (destruct j as [|j]; [vm_compute; auto|]); lia|]). lia.
+  - intros i j Hi Hj. do 5 (destruct i as [|i]; [do 5 (destruct j as [|j]; [vm_compute; discriminate|]); exfalso; lia|]). exfalso; lia.
+  - intros i j Hi Hj. do 2 (destruct i as [|i]; [do 2 (destruct j as [|j]; [vm_compute; auto|]); exfalso; lia|]). exfalso; lia.
 Qed.
 Example nonvacuous_output :
   run_bc_wei diamond = Some [0; 1#2; 1#2; 0; 0] /\
